@@ -2,6 +2,7 @@ package value
 
 import (
 	"fmt"
+	"math"
 	"sync"
 )
 
@@ -9,6 +10,9 @@ var WaitGroupClass *Class // ::Std::Sync::WaitGroup
 
 type WaitGroup struct {
 	Native sync.WaitGroup
+
+	mu      sync.Mutex // guards counter and the calls of Native.Add
+	counter int64      // mirrors the counter of Native, which panics when it goes negative
 }
 
 func WaitGroupConstructor(class *Class) Value {
@@ -47,22 +51,37 @@ func (w *WaitGroup) InstanceVariables() *InstanceVariables {
 	return nil
 }
 
-func (w *WaitGroup) Add(n int) {
-	w.Native.Add(n)
-}
+// Add n to the counter, n may be negative.
+// Returns an error when the counter would go negative or overflow.
+func (w *WaitGroup) Add(n int) Value {
+	w.mu.Lock()
+	defer w.mu.Unlock()
 
-func (w *WaitGroup) Remove(n int) {
-	for range n {
-		w.Native.Done()
+	counter := w.counter + int64(n)
+	if counter < 0 {
+		return Ref(NewError(OutOfRangeErrorClass, "negative WaitGroup counter"))
 	}
+	if counter > math.MaxInt32 {
+		return Ref(NewError(OutOfRangeErrorClass, "WaitGroup counter is too large"))
+	}
+	w.counter = counter
+	w.Native.Add(n)
+	return Undefined
 }
 
-func (w *WaitGroup) Start() {
-	w.Native.Add(1)
+func (w *WaitGroup) Remove(n int) Value {
+	if n <= 0 {
+		return Undefined
+	}
+	return w.Add(-n)
 }
 
-func (w *WaitGroup) End() {
-	w.Native.Done()
+func (w *WaitGroup) Start() Value {
+	return w.Add(1)
+}
+
+func (w *WaitGroup) End() Value {
+	return w.Add(-1)
 }
 
 func (w *WaitGroup) Wait() {
